@@ -5,7 +5,7 @@ ID = "C08"
 LEVEL = "exploration"
 FLAVOUR = "plain"
 TIMEOUT = 1800
-RULE = ("cell = (kind of partition column 1: int64, float64, bool, datetime64[us], object text, categorical text / int; "
+RULE = ("cell = (kind of partition column 1: int64, float64, bool, datetime64[us], object text, categorical text / int, ordered categorical text whose category order is not the label order; "
         "wave 3: datetime64[ns] with nanosecond keys, datetime64[s] outside the ns range, zone-aware datetime, pandas "
         "'str' dtype, nullable Int64, uint64 beyond 2**63, text with unusual but legal path characters incl. a "
         "backslash) x (kind of partition column 2 or none; a third int column in thorough) x scheme {hive, drill}; "
@@ -32,7 +32,7 @@ ASSUMPTIONS = ["keys whose text coerces to the same value (\"0.7\" / \".7\") and
 
 PKINDS = ["int", "float", "bool", "dt", "str", "cat_str", "cat_int"]
 # wave 3: kinds inside the quantifier's families that the first alphabet never produced
-XKINDS = ["dt_ns", "dt_s", "dt_tz", "str_pd", "Int64", "uint64", "str_bs"]
+XKINDS = ["dt_ns", "dt_s", "dt_tz", "str_pd", "Int64", "uint64", "str_bs", "cat_rev"]
 STRISH = ("str", "str_pd", "str_bs")
 NOT_NULLABLE = ("int", "bool", "uint64")
 # partition column names (level 1, level 2, level 3)
@@ -41,7 +41,7 @@ NAMES = [("my col", "k-2", "z 3"), ("year", "y", "ye"), ("a", "ab", "abc"), ("é
 # dtype kinds (numpy letter) the reconstructed hive column may have
 DTYPE_KINDS = {"int": "iu", "Int64": "iu", "uint64": "iu", "cat_int": "iu", "float": "f", "bool": "b",
                "dt": "M", "dt_ns": "M", "dt_s": "M", "dt_tz": "M",
-               "str": "OUT", "str_pd": "OUT", "str_bs": "OUT", "cat_str": "OUT"}
+               "str": "OUT", "str_pd": "OUT", "str_bs": "OUT", "cat_str": "OUT", "cat_rev": "OUT"}
 
 
 def key_pool(kind):
@@ -60,7 +60,7 @@ def key_pool(kind):
     if kind == "str":
         # "1" and "True" adjacent: as parsed values (drill) they are equal in Python (1 == True)
         return ["1", "True", "a", "1.5", "nan", "2020-01-01", " x y", "é", "a.b"]
-    if kind == "cat_str":
+    if kind in ("cat_str", "cat_rev"):
         return ["u", "v", "w"]
     if kind == "cat_int":
         return [10, 20, 30]
@@ -143,6 +143,9 @@ def key_series(kind, keys, n, name):
         return pd.Series(vals, dtype=object, name=name)
     if kind == "cat_str":
         return pd.Series(pd.Categorical(vals, categories=["u", "unused", "v", "w"]), name=name)
+    if kind == "cat_rev":
+        # declared category order differs from the order of the labels (low < mid < high style)
+        return pd.Series(pd.Categorical(vals, categories=["w", "unused", "u", "v"], ordered=True), name=name)
     if kind == "cat_int":
         return pd.Series(pd.Categorical(vals, categories=[10, 20, 30, 40]), name=name)
     if kind == "dt_ns":
